@@ -248,15 +248,16 @@ def load_property(pid: str):
 
 
 def write_replay(pid, tier, seed, v):
-    os.makedirs(os.path.join(VERIF, 'replays'), exist_ok=True)
+    rdir = os.environ.get('VERIF_REPLAY_DIR') or os.path.join(VERIF, 'replays')
+    os.makedirs(rdir, exist_ok=True)
     body = dict(property=pid, tier=tier, seed=seed, layer=v['layer'], symptom=v['symptom'], locus=v.get('locus', ''),
                 sig=v.get('sig', {}), detail=v.get('detail', ''), case=v['case'], repo_head=repo_head())
     digest = hashlib.sha1(json.dumps([pid, v['layer'], v['symptom'], v['case']], sort_keys=True, default=str)
                           .encode()).hexdigest()[:12]
-    path = os.path.join(VERIF, 'replays', '%s-%s.json' % (pid, digest))
+    path = os.path.join(rdir, '%s-%s.json' % (pid, digest))
     with open(path, 'w') as f:
         json.dump(body, f, indent=1, default=str)
-    test = os.path.join(VERIF, 'replays', 'test_%s_%s.py' % (pid.lower(), digest))
+    test = os.path.join(rdir, 'test_%s_%s.py' % (pid.lower(), digest))
     with open(test, 'w') as f:
         f.write("import subprocess\n\ndef test_replay():\n"
                 "    assert subprocess.run(['%s/check', '%s', '--replay', '%s']).returncode == 0\n"
@@ -397,8 +398,9 @@ def _write_evidence(pid, tier, seed, mod, layers, results, t0, nviol, reported, 
         cov['harness_error'] = harness_error
     ev = dict(property_id=pid, tier=tier, seed=seed, level='model_checking', coverage=cov,
               assumptions=list(getattr(mod, 'ASSUMPTIONS', [])), wall_s=round(time.time() - t0, 2), violations=int(nviol))
-    os.makedirs(os.path.join(VERIF, 'evidence'), exist_ok=True)
-    path = os.path.join(VERIF, 'evidence', pid + '.json')
+    edir = os.environ.get('VERIF_EVIDENCE_DIR') or os.path.join(VERIF, 'evidence')
+    os.makedirs(edir, exist_ok=True)
+    path = os.path.join(edir, pid + '.json')
     tmp = path + '.tmp'
     with open(tmp, 'w') as f:
         json.dump(ev, f, indent=1, default=_jsonable)
